@@ -199,7 +199,7 @@ class _Reader(CSVWorkloadReader):
             yield PipelineArrival(a, p)
 
 
-def trace_protocol(tps, a0, a1, a2, a3, n, R, want=""):
+def trace_protocol(tps, a0, a1, a2, a3, n, R, pa=-1, pr=0, want=""):
     """n <= 4 pipelines with arrival times a_i/tps seconds... at tick rate tps in {1,2,4} the seconds
     value k/tps is exact, so the expected delivery tick of arrival k/tps is k.  Arrivals are
     non-decreasing (file order); the run lasts R ticks."""
@@ -207,6 +207,13 @@ def trace_protocol(tps, a0, a1, a2, a3, n, R, want=""):
     for i in range(1, n):
         if arr_ticks[i] < arr_ticks[i - 1]:
             return ""
+    if pa >= 0:
+        # an earlier replay in the same process: another trace (arrivals at ticks 0 and pa) run for pr ticks only, so it
+        # may stop before it is exhausted; it must not leave anything behind for the replay below
+        other = [Pipeline(f"o{i}", Priority.BATCH_PIPELINE) for i in range(2)]
+        wl0 = _Reader([(0 / tps, other[0]), (pa / tps, other[1])]).get_workload(tps)
+        for t in range(pr):
+            wl0.run_one_tick()
     pipes = [Pipeline(f"p{i}", Priority.QUERY) for i in range(n)]
     arrivals = [(arr_ticks[i] / tps, pipes[i]) for i in range(n)]
     wl = _Reader(arrivals).get_workload(tps)
@@ -215,7 +222,9 @@ def trace_protocol(tps, a0, a1, a2, a3, n, R, want=""):
     for t in range(R):
         got = wl.run_one_tick()
         for p in got:
-            i = next(k for k in range(n) if pipes[k] is p)
+            i = next((k for k in range(n) if pipes[k] is p), None)
+            if i is None:
+                return "C13:delivered_a_pipeline_that_is_not_in_the_trace"
             if i in delivered:
                 return "C13:pipeline_delivered_twice"
             delivered[i] = t
